@@ -106,3 +106,30 @@ func H_C09_dedup_only_coincident() {
 	vAssert("never-more-than-input", len(frags) <= 2 && len(frags) >= 1)
 	vReach("end")
 }
+
+// H_C02_form_xobject_fan_out: the nesting limit alone does not bound the work: a form that invokes itself (or the next
+// form) many times per level multiplies at every level.
+//
+//symgo:harness prop=C02 kernel=text.invokeXObject-fan-out hang=1 depth=150 loop=1000000 steps=600000000
+//symgo:desc Form XObject A whose content invokes A itself 8 times, or a ring A -> B -> C -> A where each form invokes the next 8 times (enumerated); page content "/A Do": extraction finishes within 600 million interpreter steps (8 invocations per level over the implementation's 10 levels would be 8^10, about 10^9 invocations); the candidate is replayed natively under the time limit
+func H_C02_form_xobject_fan_out() {
+	many := func(name string) []byte {
+		var b []byte
+		for i := 0; i < 8; i++ {
+			b = append(b, "/"+name+" Do "...)
+		}
+		return b
+	}
+	xo := core.Dict{}
+	if vAnyIntIn(0, 1) == 0 {
+		xo["A"] = &core.Stream{Dict: core.Dict{"Subtype": core.Name("Form")}, Data: many("A")}
+	} else {
+		xo["A"] = &core.Stream{Dict: core.Dict{"Subtype": core.Name("Form")}, Data: many("B")}
+		xo["B"] = &core.Stream{Dict: core.Dict{"Subtype": core.Name("Form")}, Data: many("C")}
+		xo["C"] = &core.Stream{Dict: core.Dict{"Subtype": core.Name("Form")}, Data: many("A")}
+	}
+	e := NewExtractor()
+	e.SetResourceContext(core.Dict{"XObject": xo}, vNoRefs)
+	_, _ = e.Extract([]contentstream.Operation{vOp("Do", core.Name("A"))})
+	vReach("end")
+}
